@@ -7,23 +7,25 @@ VARIABLES cfg, rd, nxt, chIn, closedIn, w1, w2, chMid, closedMid, chOut, closedO
 
 Topo(name, n, t) ==
   CASE name = "toMultiAlign" -> [name |-> name, N |-> n, T |-> t, Stages |-> 1, CapIn |-> t, CapOut |-> 0, Reorder |-> TRUE,
-                                 Header |-> TRUE, HdrSel |-> (Variant # "hdr-as-coded"), HdrWrites |-> 0, WritesPer |-> 2]
+                                 Header |-> TRUE, HdrSel |-> (Variant # "hdr-as-coded"), HdrWrites |-> 0, WritesPer |-> 2, Skip |-> {}]
     [] name = "toPairAlign"  -> [name |-> name, N |-> n, T |-> t, Stages |-> 2, CapIn |-> t, CapOut |-> 0, Reorder |-> (Variant # "order-as-coded"),
-                                 Header |-> TRUE, HdrSel |-> (Variant # "hdr-as-coded"), HdrWrites |-> 0, WritesPer |-> 2]
+                                 Header |-> TRUE, HdrSel |-> (Variant # "hdr-as-coded"), HdrWrites |-> 0, WritesPer |-> 2, Skip |-> {}]
     [] name = "samVariants"  -> [name |-> name, N |-> n, T |-> t, Stages |-> 2, CapIn |-> t, CapOut |-> 0, Reorder |-> TRUE,
-                                 Header |-> TRUE, HdrSel |-> (Variant # "hdr-as-coded"), HdrWrites |-> 1, WritesPer |-> 2]
+                                 Header |-> TRUE, HdrSel |-> (Variant # "hdr-as-coded"), HdrWrites |-> 1, WritesPer |-> 2, Skip |-> {}]
     [] name = "variants"     -> [name |-> name, N |-> n, T |-> t, Stages |-> 1, CapIn |-> n, CapOut |-> n, Reorder |-> TRUE,
-                                 Header |-> FALSE, HdrSel |-> TRUE, HdrWrites |-> 1, WritesPer |-> 2]
+                                 Header |-> FALSE, HdrSel |-> TRUE, HdrWrites |-> 1, WritesPer |-> 2, Skip |-> {}]
+    [] name = "variantsRef"  -> [name |-> name, N |-> n, T |-> t, Stages |-> 1, CapIn |-> n, CapOut |-> n, Reorder |-> TRUE,    \* the reference is record 1 of the alignment
+                                 Header |-> FALSE, HdrSel |-> TRUE, HdrWrites |-> 1, WritesPer |-> 2, Skip |-> IF n > 1 THEN {1} ELSE {}]
     [] name = "snps"         -> [name |-> name, N |-> n, T |-> t, Stages |-> 1, CapIn |-> 0, CapOut |-> n, Reorder |-> TRUE,
-                                 Header |-> FALSE, HdrSel |-> TRUE, HdrWrites |-> 1, WritesPer |-> 1]
+                                 Header |-> FALSE, HdrSel |-> TRUE, HdrWrites |-> 1, WritesPer |-> 1, Skip |-> {}]
     [] name = "updownList"   -> [name |-> name, N |-> n, T |-> t, Stages |-> 1, CapIn |-> n, CapOut |-> n, Reorder |-> TRUE,
-                                 Header |-> FALSE, HdrSel |-> TRUE, HdrWrites |-> 1, WritesPer |-> 1]
-Names == {"toMultiAlign", "toPairAlign", "samVariants", "variants", "snps", "updownList"}
+                                 Header |-> FALSE, HdrSel |-> TRUE, HdrWrites |-> 1, WritesPer |-> 1, Skip |-> {}]
+Names == {"toMultiAlign", "toPairAlign", "samVariants", "variants", "variantsRef", "snps", "updownList"}
 Faults(c) == {[kind |-> "none", at |-> 0]}
              \cup {[kind |-> "rd", at |-> k] : k \in 0..(c.N - 1)}
              \cup {[kind |-> "wk1", at |-> k] : k \in 0..(c.N - 1)}
              \cup (IF c.Stages = 2 THEN {[kind |-> "wk2", at |-> k] : k \in 0..(c.N - 1)} ELSE {})
-             \cup {[kind |-> "wr", at |-> k] : k \in 1..(c.HdrWrites + c.N * c.WritesPer)}
+             \cup {[kind |-> "wr", at |-> k] : k \in 1..(c.HdrWrites + (c.N - Cardinality(c.Skip)) * c.WritesPer)}
              \cup (IF c.Header THEN {[kind |-> "rdhdr", at |-> 0]} ELSE {})
 WithFault(c, f) == [x \in (DOMAIN c) \cup {"fault"} |-> IF x = "fault" THEN f ELSE c[x]]
 Configs == UNION { {WithFault(Topo(nm, n, t), f) : f \in Faults(Topo(nm, n, t))} : nm \in Names, n \in {0, MaxN}, t \in {1, MaxT} }
